@@ -16,6 +16,7 @@ mod obs;
 mod ops;
 mod rng;
 mod sched;
+mod store;
 mod tower;
 
 extern "C" {
